@@ -4,16 +4,19 @@
   * `LeafOK m`  — the flat map of a memory leaf is well-formed (`WF`), or it is the empty map
                   (the only way to leave `WF`: `remove_dir` on the leaf's OWN root while the tree
                   is the bare root; the map is then `[]` and stays `[]` for ever).
-  * `Inv w`     — every memory leaf of the world holds a `LeafOK` map.
-  * every RAW trait method of MemoryFS (no path-layer guard in front of it) keeps `LeafOK`, on
-    every path string: `LeafOK.createDir`, `LeafOK.createFile`, `LeafOK.removeDir`, …
+  * `InvP P w`  — every memory leaf `i` of the world holds a map satisfying `P i`;
+    `Inv := InvP (fun _ => LeafOK)`.
+  * `MemClosed P` — `P` is kept by every RAW trait method of MemoryFS (no path-layer guard in
+    front of it) on every path string, by buffer publication and by same-type replacement.
+    Instances: `leafOK_closed` (well-formed or empty), `emptyAt_closed` (emptiness is absorbing).
   * `handleOK_any`        — EVERY write handle whatsoever (any leaf index, key, kind, buffer,
-                            position; fresh, stale, or made up) keeps `Inv` under write / flush /
-                            drop.
-  * `leafFS_all_preserve` — `(leafFS i).AllPreserve Inv` for every `i` (memory leaf, physical
-                            leaf, or no such leaf).
+                            position; fresh, stale, or made up) keeps `InvP P` under write /
+                            flush / drop.
+  * `leafFS_all_preserveP`, `leafFS_all_preserve` — `(leafFS i).AllPreserve Inv` for every `i`
+                            (memory leaf, physical leaf, or no such leaf).
   * `recordFS_all_preserve`, `faultFS_all_preserve` — the harness wrappers forward `AllPreserve`
-                            for every invariant that reads only the leaves of the world.
+                            for every invariant that reads only the leaves of the world;
+    `embedded_all_preserve` — EmbeddedFS touches nothing.
   * for an ARBITRARY invariant `I`: the composite path operations that PreservesOps.lean does
     not cover — `move_file`, the walk (`walkNext`, `walkAll`), `copy_dir`, `move_dir`,
     `read_to_string` — preserve `I` as soon as the filesystems of the paths involved do.
@@ -21,15 +24,13 @@
 import VfsModel.Proofs.PreservesOps
 import VfsModel.Proofs.LeafFrame
 import VfsModel.Proofs.MemRun
+import VfsModel.Embedded
 namespace Vfs.Stk
 
 /-! ### the invariant -/
 
 /-- well-formed, or empty (after the removal of the bare root of the leaf itself) -/
 def LeafOK (m : FMap) : Prop := WF m ∨ m = []
-
-/-- every memory leaf of the world holds a well-formed (or emptied) map -/
-def Inv (w : World) : Prop := ∀ i l, w.leaf? i = some l → l.kind = .mem → LeafOK l.files
 
 theorem LeafOK.wf_of_ne {m : FMap} (h : LeafOK m) (hne : m ≠ []) : WF m := by
   rcases h with h | h
@@ -151,75 +152,123 @@ theorem wf_removeDir_raw {m : FMap} (hwf : WF m) (p : Str) : LeafOK (Mem.removeD
     · exact Or.inl hwf
   · exact Or.inl (hwf.pRemoveDir p hp)
 
-/-! ### raw MemoryFS methods keep `LeafOK` (on the empty map nothing can be created) -/
+/-! ### raw MemoryFS methods on the empty map: nothing can be created, the map stays empty -/
 
-theorem LeafOK.createDir {m : FMap} (h : LeafOK m) (p : Str) : LeafOK (Mem.createDir m p).2 := by
-  rcases h with h | h
-  · exact Or.inl (wf_createDir_raw h p)
-  · subst h; right
-    unfold Mem.createDir
-    split
-    · rename_i u hen; exact absurd hen (ensureHasParent_nil p u)
-    · rfl
-    · rfl
+theorem nil_createDir (p : Str) : (Mem.createDir [] p).2 = [] := by
+  unfold Mem.createDir
+  split
+  · rename_i u hen; exact absurd hen (ensureHasParent_nil p u)
+  · rfl
+  · rfl
 
-theorem LeafOK.createFile {m : FMap} (h : LeafOK m) (p : Str) : LeafOK (Mem.createFile m p).2 := by
-  rcases h with h | h
-  · exact Or.inl (wf_createFile_raw h p)
-  · subst h; right
-    unfold Mem.createFile
-    split
-    · rename_i u hen; exact absurd hen (ensureHasParent_nil p u)
-    · rfl
-    · rfl
+theorem nil_createFile (p : Str) : (Mem.createFile [] p).2 = [] := by
+  unfold Mem.createFile
+  split
+  · rename_i u hen; exact absurd hen (ensureHasParent_nil p u)
+  · rfl
+  · rfl
 
-theorem LeafOK.openFile {m : FMap} (h : LeafOK m) (p : Str) : LeafOK (Mem.openFile m p).2 := by
-  rcases h with h | h
-  · exact Or.inl (h.openFile p)
-  · subst h; right; simp [Mem.openFile, Mem.setAccessed, fail]
+theorem nil_openFile (p : Str) : (Mem.openFile [] p).2 = [] := by
+  simp [Mem.openFile, Mem.setAccessed, fail]
+theorem nil_setCreated (p : Str) (t : TS) : (Mem.setCreated [] p t).2 = [] := by simp [Mem.setCreated]
+theorem nil_setModified (p : Str) (t : TS) : (Mem.setModified [] p t).2 = [] := by simp [Mem.setModified]
+theorem nil_setAccessed (p : Str) (t : TS) : (Mem.setAccessed [] p t).2 = [] := by simp [Mem.setAccessed]
+theorem nil_removeFile (p : Str) : (Mem.removeFile [] p).2 = [] := by simp [Mem.removeFile]
+theorem nil_removeDir (p : Str) : (Mem.removeDir [] p).2 = [] := by
+  simp [Mem.removeDir, Mem.readDir, fail]
+theorem nil_memPublish (k : Str) (buf : Bytes) : memPublish [] k buf = [] := by simp [Vfs.memPublish]
 
-theorem LeafOK.setCreated {m : FMap} (h : LeafOK m) (p : Str) (t : TS) : LeafOK (Mem.setCreated m p t).2 := by
-  rcases h with h | h
-  · exact Or.inl (h.setCreated p t)
-  · subst h; right; simp [Mem.setCreated]
+/-! ### predicates on the maps of the memory leaves that every raw MemoryFS step keeps -/
 
-theorem LeafOK.setModified {m : FMap} (h : LeafOK m) (p : Str) (t : TS) : LeafOK (Mem.setModified m p t).2 := by
-  rcases h with h | h
-  · exact Or.inl (h.setModified p t)
-  · subst h; right; simp [Mem.setModified]
+/-- `P i m` (a predicate on the map `m` of memory leaf `i`) is kept by every state change a
+memory leaf can undergo: the eight mutating raw trait methods of MemoryFS on any path, the
+publication of a write buffer under any key, and the replacement of an entry by one of the same
+type (a direct write through a handle of the physical kind, should one point at a memory
+leaf) -/
+structure MemClosed (P : Nat → FMap → Prop) : Prop where
+  createDir : ∀ i m p, P i m → P i (Mem.createDir m p).2
+  createFile : ∀ i m p, P i m → P i (Mem.createFile m p).2
+  openFile : ∀ i m p, P i m → P i (Mem.openFile m p).2
+  setCreated : ∀ i m p t, P i m → P i (Mem.setCreated m p t).2
+  setModified : ∀ i m p t, P i m → P i (Mem.setModified m p t).2
+  setAccessed : ∀ i m p t, P i m → P i (Mem.setAccessed m p t).2
+  removeFile : ∀ i m p, P i m → P i (Mem.removeFile m p).2
+  removeDir : ∀ i m p, P i m → P i (Mem.removeDir m p).2
+  memPublish : ∀ i m k buf, P i m → P i (memPublish m k buf)
+  insert_same : ∀ i m k (e e' : Entry), P i m → m.find? k = some e → e'.ftype = e.ftype →
+    P i (m.insert k e')
 
-theorem LeafOK.setAccessed {m : FMap} (h : LeafOK m) (p : Str) (t : TS) : LeafOK (Mem.setAccessed m p t).2 := by
-  rcases h with h | h
-  · exact Or.inl (h.setAccessed p t)
-  · subst h; right; simp [Mem.setAccessed]
+/-- **well-formed-or-empty is kept by every raw MemoryFS step**, on every path string -/
+theorem leafOK_closed : MemClosed (fun _ => LeafOK) where
+  createDir _ m p h := by
+    rcases h with h | h
+    · exact Or.inl (wf_createDir_raw h p)
+    · subst h; exact Or.inr (nil_createDir p)
+  createFile _ m p h := by
+    rcases h with h | h
+    · exact Or.inl (wf_createFile_raw h p)
+    · subst h; exact Or.inr (nil_createFile p)
+  openFile _ m p h := by
+    rcases h with h | h
+    · exact Or.inl (h.openFile p)
+    · subst h; exact Or.inr (nil_openFile p)
+  setCreated _ m p t h := by
+    rcases h with h | h
+    · exact Or.inl (h.setCreated p t)
+    · subst h; exact Or.inr (nil_setCreated p t)
+  setModified _ m p t h := by
+    rcases h with h | h
+    · exact Or.inl (h.setModified p t)
+    · subst h; exact Or.inr (nil_setModified p t)
+  setAccessed _ m p t h := by
+    rcases h with h | h
+    · exact Or.inl (h.setAccessed p t)
+    · subst h; exact Or.inr (nil_setAccessed p t)
+  removeFile _ m p h := by
+    rcases h with h | h
+    · exact Or.inl (h.pRemoveFile p)
+    · subst h; exact Or.inr (nil_removeFile p)
+  removeDir _ m p h := by
+    rcases h with h | h
+    · exact wf_removeDir_raw h p
+    · subst h; exact Or.inr (nil_removeDir p)
+  memPublish _ m k buf h := by
+    rcases h with h | h
+    · exact Or.inl (h.memPublish_any k buf)
+    · subst h; exact Or.inr (nil_memPublish k buf)
+  insert_same _ m k e e' h he ht := by
+    rcases h with h | h
+    · exact Or.inl (h.setTime k e e' he ht)
+    · subst h; cases he
 
-theorem LeafOK.removeFile {m : FMap} (h : LeafOK m) (p : Str) : LeafOK (Mem.removeFile m p).2 := by
-  rcases h with h | h
-  · exact Or.inl (h.pRemoveFile p)
-  · subst h; right; simp [Mem.removeFile]
-
-theorem LeafOK.removeDir {m : FMap} (h : LeafOK m) (p : Str) : LeafOK (Mem.removeDir m p).2 := by
-  rcases h with h | h
-  · exact wf_removeDir_raw h p
-  · subst h; right; simp [Mem.removeDir, Mem.readDir, fail]
-
-theorem LeafOK.memPublish {m : FMap} (h : LeafOK m) (k : Str) (buf : Bytes) : LeafOK (memPublish m k buf) := by
-  rcases h with h | h
-  · exact Or.inl (h.memPublish_any k buf)
-  · subst h; right; simp [Vfs.memPublish]
-
-/-- replacing an entry by one of the same type (what a direct write of a physical-style handle
-does) -/
-theorem LeafOK.insert_same {m : FMap} (h : LeafOK m) (k : Str) (e e' : Entry)
-    (he : m.find? k = some e) (ht : e'.ftype = e.ftype) : LeafOK (m.insert k e') := by
-  rcases h with h | h
-  · exact Or.inl (h.setTime k e e' he ht)
-  · subst h; cases he
+/-- **emptiness is absorbing**: once the map of memory leaf `i0` is empty (its own root was
+removed) no call can put anything into it again -/
+theorem emptyAt_closed (i0 : Nat) : MemClosed (fun i m => i = i0 → m = []) where
+  createDir _ m p h hi := by rw [h hi]; exact nil_createDir p
+  createFile _ m p h hi := by rw [h hi]; exact nil_createFile p
+  openFile _ m p h hi := by rw [h hi]; exact nil_openFile p
+  setCreated _ m p t h hi := by rw [h hi]; exact nil_setCreated p t
+  setModified _ m p t h hi := by rw [h hi]; exact nil_setModified p t
+  setAccessed _ m p t h hi := by rw [h hi]; exact nil_setAccessed p t
+  removeFile _ m p h hi := by rw [h hi]; exact nil_removeFile p
+  removeDir _ m p h hi := by rw [h hi]; exact nil_removeDir p
+  memPublish _ m k buf h hi := by rw [h hi]; exact nil_memPublish k buf
+  insert_same _ m k e e' h he ht hi := by rw [h hi] at he; cases he
 
 /-! ### the world -/
 
-theorem setLeafFiles_inv (w : World) (i : Nat) (f : FMap) (hw : Inv w)
-    (hf : ∀ l, w.leaf? i = some l → l.kind = .mem → LeafOK f) : Inv (w.setLeafFiles i f) := by
+/-- every memory leaf `i` of the world holds a map satisfying `P i` -/
+def InvP (P : Nat → FMap → Prop) (w : World) : Prop :=
+  ∀ i l, w.leaf? i = some l → l.kind = .mem → P i l.files
+
+/-- every memory leaf of the world holds a well-formed (or emptied) map -/
+abbrev Inv : World → Prop := InvP (fun _ => LeafOK)
+
+section world
+variable {P : Nat → FMap → Prop}
+
+theorem setLeafFiles_inv (w : World) (i : Nat) (f : FMap) (hw : InvP P w)
+    (hf : ∀ l, w.leaf? i = some l → l.kind = .mem → P i f) : InvP P (w.setLeafFiles i f) := by
   intro j l' hj hk
   by_cases hij : i = j
   · subst hij
@@ -236,31 +285,31 @@ theorem setLeafFiles_inv (w : World) (i : Nat) (f : FMap) (hw : Inv w)
   · rw [World.leaf?_setLeafFiles_ne w i j f hij] at hj
     exact hw j l' hj hk
 
-/-- an `onLeaf` action whose pure function keeps `LeafOK` on memory leaves keeps `Inv` -/
+/-- an `onLeaf` action whose pure function keeps `P i` on memory leaves keeps `InvP P` -/
 theorem onLeaf_inv {α} (i : Nat) (f : Leaf → Res α × FMap)
-    (hf : ∀ l, l.kind = .mem → LeafOK l.files → LeafOK (f l).2) : Preserves Inv (onLeaf i f) := by
+    (hf : ∀ l, l.kind = .mem → P i l.files → P i (f l).2) : Preserves (InvP P) (onLeaf i f) := by
   refine ⟨fun w hw => ?_⟩
   unfold onLeaf
   split
   · exact hw
   · rename_i l hl
-    show Inv (w.setLeafFiles i (f l).2)
+    show InvP P (w.setLeafFiles i (f l).2)
     apply setLeafFiles_inv w i _ hw
     intro l' hl' hk
     rw [hl] at hl'; injection hl' with hl'; subst hl'
     exact hf l hk (hw i l hl hk)
 
-/-- `Inv` reads only the leaves of the world -/
-theorem Inv.of_leaves {w w' : World} (h : w'.leaves = w.leaves) (hw : Inv w) : Inv w' := by
+/-- `InvP P` reads only the leaves of the world -/
+theorem InvP.of_leaves {w w' : World} (h : w'.leaves = w.leaves) (hw : InvP P w) : InvP P w' := by
   intro i l hl hk
   exact hw i l (by unfold World.leaf? at *; rw [← h]; exact hl) hk
 
-/-! ### every write handle keeps `Inv` -/
+/-! ### every write handle keeps the invariant -/
 
 /-- **every write handle whatsoever** — whatever leaf, key, kind, buffer and position it
 carries, whether the file it was opened on still exists, was removed, or was replaced by a
-directory — keeps every memory leaf well-formed under `write`, `flush` and `drop` -/
-theorem handleOK_any (h : WHandle) : HandleOK Inv h := by
+directory — keeps `InvP P` under `write`, `flush` and `drop` -/
+theorem handleOK_any (hP : MemClosed P) (h : WHandle) : HandleOK (InvP P) h := by
   intro buf pos
   constructor
   · intro bs
@@ -276,7 +325,7 @@ theorem handleOK_any (h : WHandle) : HandleOK Inv h := by
           apply setLeafFiles_inv w _ _ hw
           intro l' hl' hk
           rw [hl] at hl'; injection hl' with hl'; subst hl'
-          apply (hw _ l hl hk).insert_same _ e _ he
+          apply hP.insert_same _ _ _ e _ (hw _ l hl hk) he
           split <;> rfl
         · exact hw
       · exact hw
@@ -287,7 +336,7 @@ theorem handleOK_any (h : WHandle) : HandleOK Inv h := by
           apply setLeafFiles_inv w _ _ hw
           intro l' hl' hk
           rw [hl] at hl'; injection hl' with hl'; subst hl'
-          exact (hw _ l hl hk).insert_same _ e _ he rfl
+          exact hP.insert_same _ _ _ e _ (hw _ l hl hk) he rfl
         · exact hw
       · exact hw
   · refine ⟨fun w hw => ?_⟩
@@ -299,44 +348,51 @@ theorem handleOK_any (h : WHandle) : HandleOK Inv h := by
         apply setLeafFiles_inv w _ _ hw
         intro l' hl' hk
         rw [hl] at hl'; injection hl' with hl'; subst hl'
-        exact (hw _ l hl hk).memPublish _ _
+        exact hP.memPublish _ _ _ _ (hw _ l hl hk)
       · exact hw
     · exact hw
     · exact hw
 
-theorem returns_handleOK {m : M WHandle} : Returns m (HandleOK Inv) :=
-  ⟨fun _ h _ => handleOK_any h⟩
+theorem returns_handleOK (hP : MemClosed P) {m : M WHandle} : Returns m (HandleOK (InvP P)) :=
+  ⟨fun _ h _ => handleOK_any hP h⟩
 
 /-! ### the leaf filesystems -/
 
-/-- **every method of every leaf filesystem keeps every memory leaf well-formed**: leaf `i` may
-be a memory leaf, a physical leaf, or absent; the 15 trait methods are the RAW ones (no
+/-- **every method of every leaf filesystem keeps the invariant of every memory leaf**: leaf `i`
+may be a memory leaf, a physical leaf, or absent; the 15 trait methods are the RAW ones (no
 path-layer guard in front), on every path string, successful or failed -/
-theorem leafFS_all_preserve (i : Nat) : (leafFS i).AllPreserve Inv where
+theorem leafFS_all_preserveP (hP : MemClosed P) (i : Nat) : (leafFS i).AllPreserve (InvP P) where
   readDir p := onLeaf_inv i _ (fun l hk h => by simp only [hk]; exact h)
-  createDir p := onLeaf_inv i _ (fun l hk h => by simp only [hk]; exact h.createDir p)
-  openFile p := onLeaf_inv i _ (fun l hk h => by simp only [hk]; exact h.openFile p)
-  createFile p := onLeaf_inv i _ (fun l hk h => by simp only [hk]; exact h.createFile p)
+  createDir p := onLeaf_inv i _ (fun l hk h => by simp only [hk]; exact hP.createDir _ _ p h)
+  openFile p := onLeaf_inv i _ (fun l hk h => by simp only [hk]; exact hP.openFile _ _ p h)
+  createFile p := onLeaf_inv i _ (fun l hk h => by simp only [hk]; exact hP.createFile _ _ p h)
   appendFile p := onLeaf_inv i _ (fun l hk h => by simp only [hk]; exact h)
   metadata p := onLeaf_inv i _ (fun l hk h => by simp only [hk]; exact h)
-  setCreationTime p t := onLeaf_inv i _ (fun l hk h => by simp only [hk]; exact h.setCreated p _)
-  setModificationTime p t := onLeaf_inv i _ (fun l hk h => by simp only [hk]; exact h.setModified p _)
-  setAccessTime p t := onLeaf_inv i _ (fun l hk h => by simp only [hk]; exact h.setAccessed p _)
+  setCreationTime p t := onLeaf_inv i _ (fun l hk h => by simp only [hk]; exact hP.setCreated _ _ p _ h)
+  setModificationTime p t := onLeaf_inv i _ (fun l hk h => by simp only [hk]; exact hP.setModified _ _ p _ h)
+  setAccessTime p t := onLeaf_inv i _ (fun l hk h => by simp only [hk]; exact hP.setAccessed _ _ p _ h)
   exists_ p := onLeaf_inv i _ (fun l hk h => by simp only [hk]; exact h)
-  removeFile p := onLeaf_inv i _ (fun l hk h => by simp only [hk]; exact h.removeFile p)
-  removeDir p := onLeaf_inv i _ (fun l hk h => by simp only [hk]; exact h.removeDir p)
+  removeFile p := onLeaf_inv i _ (fun l hk h => by simp only [hk]; exact hP.removeFile _ _ p h)
+  removeDir p := onLeaf_inv i _ (fun l hk h => by simp only [hk]; exact hP.removeDir _ _ p h)
   copyFile s d := onLeaf_inv i _ (fun l hk h => by simp only [hk]; exact h)
   moveFile s d := onLeaf_inv i _ (fun l hk h => by simp only [hk]; exact h)
   moveDir s d := onLeaf_inv i _ (fun l hk h => by simp only [hk]; exact h)
-  createHandle _ := returns_handleOK
-  appendHandle _ := returns_handleOK
+  createHandle _ := returns_handleOK hP
+  appendHandle _ := returns_handleOK hP
+
+end world
+
+/-- the instance of the deliverable: every leaf filesystem keeps every memory leaf
+well-formed (or emptied by the removal of its own bare root) -/
+theorem leafFS_all_preserve (i : Nat) : (leafFS i).AllPreserve Inv :=
+  leafFS_all_preserveP leafOK_closed i
 
 /-! ### the harness wrappers (`RecordingFs`, `FaultFs`) -/
 
 /-- `I` reads only the leaves of the world (not the ghost log, not the fault plan) -/
 def LeavesOnly (I : World → Prop) : Prop := ∀ w w' : World, w'.leaves = w.leaves → I w → I w'
 
-theorem inv_leavesOnly : LeavesOnly Inv := fun _ _ h hw => Inv.of_leaves h hw
+theorem invP_leavesOnly (P : Nat → FMap → Prop) : LeavesOnly (InvP P) := fun _ _ h hw => InvP.of_leaves h hw
 
 section wrappers
 variable {I : World → Prop}
@@ -402,6 +458,26 @@ theorem faultFS_all_preserve (hI : LeavesOnly I) (inner : FS) (hi : inner.AllPre
   createHandle p := faultGate_ret (hi.createHandle p)
   appendHandle p := faultGate_ret (hi.appendHandle p)
 
+/-- EmbeddedFS holds no state of the world: its methods preserve every invariant -/
+theorem embedded_all_preserve (s : Embedded.State) : (Embedded.fs s).AllPreserve I where
+  readDir _ := Preserves.ret _
+  createDir _ := Preserves.failK _
+  openFile _ := Preserves.ret _
+  createFile _ := Preserves.failK _
+  appendFile _ := Preserves.failK _
+  metadata _ := Preserves.ret _
+  setCreationTime _ _ := Preserves.failK _
+  setModificationTime _ _ := Preserves.failK _
+  setAccessTime _ _ := Preserves.failK _
+  exists_ _ := Preserves.ret _
+  removeFile _ := Preserves.failK _
+  removeDir _ := Preserves.failK _
+  copyFile _ _ := Preserves.failK _
+  moveFile _ _ := Preserves.failK _
+  moveDir _ _ := Preserves.failK _
+  createHandle _ := Returns.failK _
+  appendHandle _ := Returns.failK _
+
 end wrappers
 
 /-! ### composite path operations, for an arbitrary invariant -/
@@ -433,6 +509,31 @@ theorem write_handleOK (h : WHandle) (hk : HandleOK I h) (bs : Bytes) :
   refine ⟨fun w r he => ?_⟩
   obtain ⟨n, h'⟩ := r
   obtain ⟨buf, pos, rfl⟩ := WHandle.write_same h bs w n h' he
+  exact hk.of_same buf pos
+
+/-- `Seek::seek` on a write handle never touches the world -/
+theorem seek_world (h : WHandle) (s : SeekFrom) (w : World) : (h.seek s w).2 = w := by
+  unfold WHandle.seek
+  split <;> rfl
+
+theorem pres_seek (h : WHandle) (s : SeekFrom) : Preserves I (h.seek s) :=
+  ⟨fun w hw => by rw [seek_world]; exact hw⟩
+
+/-- the handle returned by `seek` differs only in its position -/
+theorem seek_same (h : WHandle) (s : SeekFrom) (w : World) (n : Nat) (h' : WHandle)
+    (he : (h.seek s w).1 = .ok (n, h')) : ∃ buf pos, h' = { h with buf := buf, pos := pos } := by
+  unfold WHandle.seek at he
+  split at he
+  · simp only [Res.ok.injEq, Prod.mk.injEq] at he
+    exact ⟨h.buf, _, he.2.symm⟩
+  · cases he
+  · cases he
+
+theorem seek_handleOK (h : WHandle) (hk : HandleOK I h) (s : SeekFrom) :
+    Returns (h.seek s) (fun r => HandleOK I r.2) := by
+  refine ⟨fun w r he => ?_⟩
+  obtain ⟨n, h'⟩ := r
+  obtain ⟨buf, pos, rfl⟩ := seek_same h s w n h' he
   exact hk.of_same buf pos
 
 /-- `move_file` -/
